@@ -39,6 +39,14 @@ CHECKS = {
                      "to p = 31 are logged as bit / digit sequences and validated by TLC.",
                 technique="TLC model checking of the algorithm transcription + finite induction lemma; code->spec trace validation on bit/digit sequences",
                 ref="§6 C07"),
+    "C08": dict(engine="HilbertDist/MC_HilbertDist/Trace_HilbertDist (+ Hilbert, SPMeasure)",
+                text="The specification gives the centre cell as a bit sequence valid for every p (checked by TLC against the arithmetic "
+                     "formulation, with monotonicity / clamping / upper-edge / widening lemmas) and the distance as the transducer's digits; "
+                     "every hilbert_distance call of the driver is logged WITH THE ELEMENT and TLC recomputes bounds -> centre -> cell -> "
+                     "curve digits (equality on the exact domain, range elsewhere); argument immutability, sequence types, independence of "
+                     "position / slicing are checked on the same calls.",
+                technique="TLA+ specification of cell + curve checked by TLC; code->spec trace validation of every call (element-level oracle)",
+                ref="§6 C08"),
     "C13": dict(engine="SPMeasure/SPMeasureImpl/MC_Measure/Trace_Measure",
                 text="TLC checks bounds_interleaved over (values, outer offsets) against the tight-extent oracle on every element of the "
                      "families (non-finite coordinates, empty, degenerate); states replayed on all array types x subtypes x images x 11 "
